@@ -7,6 +7,7 @@ import SifVerif.Model.Image
 import SifVerif.Model.Extra
 import SifVerif.Model.Check
 import SifVerif.Model.Spec
+import SifVerif.Model.Fault
 import SifVerif.Model.Integrity
 import SifVerif.Model.Siftool
 import Driver.SHA2
@@ -662,6 +663,20 @@ partial def loop (inp : IO.FS.Stream) (out : IO.FS.Stream) (st : DState) : IO Un
           out.putStrLn "noimg"
           loop inp out st
         | some img =>
+          if kv.has "fault" then
+            -- the backing store fails call number m of this operation (j bytes of it written): see Model/Fault.lean
+            let mj := (kv.get "fault").splitOn ":"
+            let m := (mj.getD 0 "0").toNat?.getD 0
+            let j := (mj.getD 1 "0").toNat?.getD 0
+            match faultStep sha ph img op now m j with
+            | some img' =>
+              out.putStrLn "res err:other"
+              out.putStrLn "spec ok"
+              loop inp out { st with img := some img' }
+            | none =>
+              out.putStrLn s!"fault no-such-call m={m} of {(phaseCalls (phases sha ph img op now)).length}"
+              loop inp out st
+          else
           let (img', r) := step sha ph img op now
           out.putStrLn s!"res {resStr r}"
           -- C02: the concrete step is the reference model's step on the abstract view (checked
